@@ -362,6 +362,7 @@ func (r *run41) start(q *req41, kind string) {
 	}
 	c.fresh = r.touched[key] == q.mark
 	c.label = r.label
+	r.out.defs[c.label] = q.id // every call of a request whose replies are referenced later stays in the reference run
 	if c.retransOf != nil || q.falseOf != nil {
 		// the ids were consumed before: whatever this call is answered, it must not have any effect
 		r.out.dropped[c.label] = true
@@ -551,10 +552,20 @@ func (r *run41) onReturn(c *call41) {
 			delete(r.busy, key)
 		}
 	}
-	if ok && q.dsess >= 0 && len(res.Resarray) == 2 && res.Status == nfsv4.NFS4_OK {
-		// session destroyed by the compound: tell the model before `finish`
-		if c.modelExecPending() {
-			r.expectLine("destroy "+strconv.Itoa(q.dsess), "ok")
+	if c.modelExecPending() {
+		// sessions destroyed by the compound: tell the model before `finish`
+		for i, x := range res.Resarray {
+			ds, isDS := x.(*nfsv4.NfsResop4_OP_DESTROY_SESSION)
+			if !isDS || ds.OpdestroySession.DsrStatus != nfsv4.NFS4_OK || i >= len(q.args) {
+				continue
+			}
+			if a, isArg := q.args[i].(*nfsv4.NfsArgop4_OP_DESTROY_SESSION); isArg {
+				for idx, sid := range r.sessions {
+					if sid == a.OpdestroySession.DsaSessionid {
+						r.expectLine("destroy "+strconv.Itoa(idx), "ok")
+					}
+				}
+			}
 		}
 	}
 
